@@ -85,9 +85,14 @@ fn process_files(files: Vec<(String, String)>, entry: String, config: String) ->
             ),
         });
     });
+    // watchdog: 20 s is far beyond any real bundling (milliseconds); on a heavily loaded machine the
+    // thread may simply not have been scheduled, so a first expiry only extends the wait
     match rx.recv_timeout(std::time::Duration::from_secs(20)) {
         Ok(r) => r,
-        Err(_) => Real::Timeout,
+        Err(_) => match rx.recv_timeout(std::time::Duration::from_secs(280)) {
+            Ok(r) => r,
+            Err(_) => Real::Timeout,
+        },
     }
 }
 
@@ -128,7 +133,7 @@ pub fn run_real_isolated(r: &Rendered, generator: &str, rules: &[&str]) -> Real 
         match child.try_wait() {
             Ok(Some(status)) => break Some(status),
             Ok(None) => {
-                if started.elapsed() > std::time::Duration::from_secs(40) {
+                if started.elapsed() > std::time::Duration::from_secs(330) {
                     let _ = child.kill();
                     let _ = child.wait();
                     break None;
@@ -228,7 +233,12 @@ pub fn parse_real_errors(message: &str) -> Vec<(String, Vec<String>)> {
         })
     });
     for label in ["json", "yaml", "toml"] {
-        scan(&format!("unable to read {} data", label), &mut |_, _| Some(("parse".to_owned(), vec![])));
+        // `unable to read json data: <message> (while reading `<path>`)`
+        scan(&format!("unable to read {} data", label), &mut |_, after| {
+            let marker = "(while reading `";
+            let named = message[after..].find(marker).and_then(|i| tick(after + i + marker.len())).map(|(p, _)| vec![p]);
+            Some(("parse".to_owned(), named.unwrap_or_default()))
+        });
     }
     scan("unable to require resource at `", &mut |_, after| tick(after).map(|(p, _)| ("missing".to_owned(), vec![p])));
     found.sort_by_key(|x| x.0);
@@ -415,7 +425,6 @@ pub fn expectation(r: &Rendered) -> Expectation {
             exp.reachable.insert(r.files[node].0.clone());
             match r.shapes[node].as_str() {
                 "lua:one" | "data" => {}
-                "parse-error" if r.data_lua.contains_key(&r.files[node].0) => exp.unnamed_data.push(r.files[node].0.clone()),
                 _ => exp.must_name.push(r.files[node].0.clone()),
             }
             if r.sites[node].iter().any(|s| s.shadowed) {
